@@ -113,4 +113,18 @@ Section Meaning.
     unfold m. destruct (Z_le_gt_dec (k - 1) n) as [L|L]; [rewrite Z.min_l by lia; reflexivity|]. rewrite Z.min_r by lia.
     rewrite (sign_bits n s n Pa Bs) by lia. rewrite (sign_bits n s (k - 1) Pa Bs) by lia. reflexivity.
   Qed.
+
+  (** rol / ror: cf is written as the low bit of the rotated value (rol) and as its top bit (ror) — the processor's rule for a non-zero count *)
+  Lemma size_rot op : size (EOp op [a; b]) = n.
+  Proof. apply size_op2. fold n in Pa. lia. Qed.
+  Theorem rol_cf_value : ev (EOp "&" [shift_val Rol a b; int_from a 1]) = Z.b2z (Z.testbit (ev (shift_val Rol a b)) 0).
+  Proof.
+    fold n in Pa. unfold shift_val. fold (e_and (EOp "<<<" [a; b]) (int_from a 1)). pose proof (size_rot "<<<") as Sz. rewrite (ev_and rho mu iota) by lia. rewrite Sz.
+    assert (W1 : ev (int_from a 1) = 1) by (unfold int_from; cbn [eval]; fold n; apply Z.mod_small; split; [lia|]; change 1 with (2 ^ 0); apply Z.pow_lt_mono_r; lia).
+    rewrite W1, Z.land_comm. apply bit0.
+    rewrite eval_op_node, Sz. cbn [map]. unfold eval_op. change (opk_of "<<<") with ORol. replace (n =? 0) with false by (symmetry; apply Z.eqb_neq; lia).
+    assert (P2 : 0 < 2 ^ n) by (apply Z.pow_pos_nonneg; lia). unfold rol, wrap. cbv zeta. exact (proj1 (Z.mod_pos_bound _ _ P2)).
+  Qed.
+  Theorem ror_cf_value : ev (msb (shift_val Ror a b)) = Z.b2z (Z.testbit (ev (shift_val Ror a b)) (n - 1)).
+  Proof. fold n in Pa. unfold shift_val. rewrite (ev_msb rho mu iota) by (rewrite size_rot; lia). rewrite size_rot. reflexivity. Qed.
 End Meaning.
